@@ -1,0 +1,86 @@
+//go:build verif
+
+package hash
+
+// Contracts for the deductive verifier in /verif (govc). Comment-only file: adds no code.
+
+// Ring invariant used by Get: every position in `keys` has a non-empty node list in `ring`, and the ring
+// is empty exactly when there are no positions.
+//@ macro ringOK(h) = h != nil && forall(i, 0, len(h.keys), has(h.ring, h.keys[i]) && len(h.ring[h.keys[i]]) >= 1)
+//@   | && (len(h.ring) == 0) == (len(h.keys) == 0) && forall(i, 0, len(h.keys), forall(j, i, len(h.keys), h.keys[i] <= h.keys[j]))
+
+// Get: the position is the first one >= hash(v) (binary search over the sorted positions), wrapping to
+// position 0 past the end; the answer is one of the nodes stored at that position; absent only on an empty ring.
+//@ func (*ConsistentHash).Get
+//@   prop C13
+//@   opaque repr, innerRepr
+//@   requires ringOK(h)
+//@   let hash = ret(h.hashFunc, 0, 1)
+//@   let s = ret(sort.Search)
+//@   let idx = ite(s < len(h.keys), s, 0)
+//@   let nodes = h.ring[h.keys[idx]]
+//@   observe NKeys = len(h.keys)
+//@   observe S = s
+//@   observe Hash = hash
+//@   observe KeyS = h.keys[s]
+//@   observe KeySm1 = h.keys[s - 1]
+//@   observe NRing = len(h.ring)
+//@   ensures [empty] len(h.ring) == 0 ==> !result1 && result0 == nil
+//@   ensures [total] len(h.ring) != 0 ==> result1
+//@   ensures [successor] len(h.ring) != 0 ==> (s == len(h.keys) || h.keys[s] >= hash) && (s == 0 || h.keys[s - 1] < hash)
+// (with the sortedness in ringOK, [successor] makes position s the first one that is not below the hash)
+//@   ensures [member-of-position] len(h.ring) != 0 ==> exists(p, 0, len(nodes), result0 == nodes[p])
+//@   ensures [single-owner] len(h.ring) != 0 && len(nodes) == 1 ==> result0 == nodes[0]
+//@   modifies nothing
+
+// Remove: one step per replica index: a position is cut out of `keys` only if it is exactly the node's own
+// virtual-node hash; nothing else in `keys` moves. Unknown nodes leave the ring untouched.
+//@ func (*ConsistentHash).Remove
+//@   prop C13
+//@   opaque repr, removeRingNode, Itoa
+//@   requires h != nil && h.replicas >= 0
+//@   let hv = ret(h.hashFunc)
+//@   let sx = ret(sort.Search)
+//@   loop 1 invariant 0 <= i && i <= h.replicas
+//@   loop 1 iteration-ensures [only-own-positions] len(h.keys) == at_head(len(h.keys)) || (len(h.keys) == at_head(len(h.keys)) - 1 && sx < at_head(len(h.keys)) && at_head(h.keys[sx]) == hv)
+//@   loop 1 iteration-ensures [prefix-kept] forall(j, 0, sx, j < len(h.keys) ==> h.keys[j] == at_head(h.keys[j]))
+//@   loop 1 iteration-ensures [suffix-shifted] len(h.keys) == at_head(len(h.keys)) - 1 ==> forall(j, sx, len(h.keys), h.keys[j] == at_head(h.keys[j + 1]))
+//@   loop 1 iteration-ensures [ring-entry] calls(h.removeRingNode, hv, nodeRepr) == 1
+//@   loop 1 iteration-ensures [next] i == at_head(i) + 1
+//@   ensures [unknown-node-untouched] !old(has(h.nodes, ret(repr))) ==> len(h.keys) == old(len(h.keys)) && calls(removeRingNode) == 0 && calls(hashFunc) == 0
+//@   ensures [forgets-node] old(has(h.nodes, ret(repr))) ==> !has(h.nodes, ret(repr))
+
+// removeRingNode: keeps exactly the nodes whose representation differs, in order.
+//@ func (*ConsistentHash).removeRingNode
+//@   prop C13
+//@   opaque repr
+//@   requires h != nil
+//@   loop 1 iteration-ensures [filter] (ret(repr) != nodeRepr) == (len(newNodes) == at_head(len(newNodes)) + 1) && (ret(repr) == nodeRepr) == (len(newNodes) == at_head(len(newNodes)))
+//@   loop 1 iteration-ensures [keeps-the-visited] ret(repr) != nodeRepr ==> newNodes[at_head(len(newNodes))] == at_head(nodes[rangeindex + 1]) && arg(repr, 0) == at_head(nodes[rangeindex + 1])
+//@   loop 1 invariant 0 <= rangeindex + 1 && rangeindex < len(nodes) && len(newNodes) <= rangeindex + 1 && newNodes.arr == nodes.arr && newNodes.off == nodes.off && newNodes.cap == nodes.cap
+//@   ensures [absent-untouched] !old(has(h.ring, hash)) ==> !has(h.ring, hash)
+
+// AddWithReplicas: the node's previous virtual nodes are removed first; at most h.replicas (and never a
+// negative number of) positions are added; weight/replicas 0 adds none.
+//@ func (*ConsistentHash).AddWithReplicas
+//@   prop C13
+//@   opaque repr, Remove, addNode, Itoa
+//@   requires h != nil && h.replicas >= 0
+//@   let n = ite(old(replicas) > h.replicas, h.replicas, old(replicas))
+//@   loop 1 invariant 0 <= i && replicas == n
+//@   loop 1 iteration-ensures [one-position] len(h.keys) == at_head(len(h.keys)) + 1 && h.keys[at_head(len(h.keys))] == ret(h.hashFunc) && calls(hashFunc) == 1
+//@   loop 1 iteration-ensures [ring-gets-node] has(h.ring, ret(h.hashFunc))
+//@   ensures [replaces-previous] calls(h.Remove, node) == 1 && before(Remove, addNode) && before(Remove, hashFunc)
+//@   ensures [zero-adds-none] n <= 0 ==> calls(hashFunc) == 0
+
+//@ func (*ConsistentHash).AddWithWeight
+//@   prop C13
+//@   opaque AddWithReplicas
+//@   requires h != nil
+//@   ensures [share] calls(h.AddWithReplicas, node, h.replicas * weight / 100) == 1
+//@   ensures [zero-weight] weight == 0 ==> arg(AddWithReplicas, 2) == 0
+//@ func (*ConsistentHash).Add
+//@   prop C13
+//@   opaque AddWithReplicas
+//@   requires h != nil
+//@   ensures calls(h.AddWithReplicas, node, h.replicas) == 1
